@@ -1,2 +1,93 @@
-(* C02 -- placeholder, filled below *)
-From PD Require Import Model.MergeLoop Model.Locate.
+(* C02 -- each located droplet is one connected component under the grid's topology.
+   Layer 1 (this file + Proofs/MergeLoop.v): the merge loop, for any edge list.
+   Layer 2/3 (Proofs/Components.v, Proofs/LocateCart.v): cells, labels, torus connectivity.
+   Overlap removal: Proofs/Overlap.v (C10).  Symmetric grids: statements below. *)
+From Coq Require Import QArith ZArith List Arith Bool Lia Lqa.
+Import ListNotations.
+From PD Require Import Model.Grid Model.MergeLoop Model.Locate Model.LocateSym Model.Overlap
+  Proofs.MergeLoop Proofs.Overlap.
+Local Open Scope Q_scope.
+
+(* ---- radial grids ---- *)
+Lemma leading_trues_spec m : forall n, leading_trues m = n ->
+  (forall i, (i < n)%nat -> nth_error m i = Some true) /\ (nth_error m n = Some false \/ nth_error m n = None).
+Proof.
+  induction m as [|b m IH]; intros n Hn; simpl in Hn; subst n.
+  - split; [intros i Hi; lia|right; reflexivity].
+  - destruct b.
+    + destruct (IH _ eq_refl) as [H1 H2]. split.
+      * intros [|i] Hi; [reflexivity|]. simpl. apply H1. lia.
+      * exact H2.
+    + split; [intros i Hi; lia|left; reflexivity].
+Qed.
+
+(* one droplet at the origin iff the innermost cell is set; its radius is the outer radius of the
+   run of cells starting at the innermost cell *)
+Lemma locate_radial_spec r_lo dr m :
+  match locate_radial r_lo dr m with
+  | None => nth_error m 0 = Some false \/ m = []
+  | Some r => exists n, (0 < n)%nat /\ r = r_lo + inject_Z (Z.of_nat n) * dr /\
+                        (forall i, (i < n)%nat -> nth_error m i = Some true) /\
+                        (nth_error m n = Some false \/ nth_error m n = None)
+  end.
+Proof.
+  unfold locate_radial. destruct (leading_trues m) as [|n] eqn:E.
+  - destruct m as [|[|] m]; simpl in E; [right; reflexivity|discriminate|left; reflexivity].
+  - exists (S n). destruct (leading_trues_spec m (S n) E) as [H1 H2].
+    split; [lia|]. split; [reflexivity|]. split; assumption.
+Qed.
+
+(* ---- cylindrical grids ---- *)
+Lemma cyl_single_members g img ds : cyl_single g img = Found ds ->
+  forall d, In d ds -> exists k, (k < num_labels img)%nat /\ on_axis (members img k) = true /\
+                                 d = cyl_droplet g (members img k).
+Proof.
+  unfold cyl_single. destruct (existsb _ _); [discriminate|]. intros [= <-] d Hd.
+  apply in_map_iff in Hd. destruct Hd as (k & Hd & Hk). apply filter_In in Hk. destruct Hk as [Hk1 Hk2].
+  exists k. apply in_seq in Hk1. split; [lia|]. split; [exact Hk2|]. symmetry. exact Hd.
+Qed.
+
+Lemma cyl_single_complete g img ds : cyl_single g img = Found ds ->
+  forall k, (k < num_labels img)%nat -> on_axis (members img k) = true -> In (cyl_droplet g (members img k)) ds.
+Proof.
+  unfold cyl_single. destruct (existsb _ _); [discriminate|]. intros [= <-] k Hk Hax.
+  apply (in_map (fun k0 => cyl_droplet g (members img k0))). apply filter_In. split; [apply in_seq; lia|exact Hax].
+Qed.
+
+(* the volume (divided by pi) of a candidate is the sum of the cell volumes of its cluster *)
+Lemma cyl_droplet_volume g cs : snd (cyl_droplet g cs) = csum cs (fun c => shell g (ridx c)).
+Proof. reflexivity. Qed.
+
+(* an image without a cluster on the symmetry axis yields no candidate, on every code path *)
+Lemma cyl_empty_if_off_axis g img_pad img :
+  (forall k, on_axis (members img k) = false) -> (forall k, on_axis (members img_pad k) = false) ->
+  cyl_candidates g img_pad img = [].
+Proof.
+  intros H Hp.
+  assert (E : forall im, (forall k, on_axis (members im k) = false) -> cyl_single g im = Found []).
+  { intros im Him. unfold cyl_single.
+    assert (F : filter (fun k => on_axis (members im k)) (seq 0 (num_labels im)) = []).
+    { induction (seq 0 (num_labels im)) as [|k l IH]; [reflexivity|]. simpl. rewrite Him. exact IH. }
+    rewrite F. reflexivity. }
+  unfold cyl_candidates. rewrite (E img H), (E img_pad Hp). destruct (cg_per g); reflexivity.
+Qed.
+
+(* candidates of the periodic path lie inside the box [z_lo, z_hi) *)
+Lemma cyl_window_in_box g ds d : In d (cyl_window g ds) -> cg_zlo g <= fst d /\ fst d < cg_zhi g.
+Proof.
+  unfold cyl_window. intros H. apply filter_In in H. destruct H as [_ H].
+  apply andb_true_iff in H. destruct H as [H1 H2]. apply Qle_bool_iff in H1.
+  split; [exact H1|]. apply Qnot_le_lt. intros Hle. apply Qle_bool_iff in Hle.
+  rewrite Hle in H2. discriminate.
+Qed.
+
+(* ---- the returned droplets: overlap removal on the candidates (min_distance = 0) ---- *)
+(* D i j = centre distance minus both radii (the matrix the implementation computes with the
+   grid's periodic metric); "i and j overlap as equal-volume spheres" is D i j < 0 *)
+Lemma returned_do_not_overlap D rad l i j :
+  In i (ro D rad 0 l) -> In j (ro D rad 0 l) -> i <> j -> 0 <= D i j.
+Proof. apply ro_separated. Qed.
+
+Lemma left_out_only_if_overlapped D rad l k : In k l -> ~ In k (ro D rad 0 l) ->
+  exists j, In j l /\ j <> k /\ (D k j < 0 \/ D j k < 0) /\ rad k <= rad j.
+Proof. apply ro_removed_reason. Qed.
